@@ -711,7 +711,9 @@ func runBuilder(cfg *common.Config, rec *common.Recorder, idx uint64, rng *commo
 				}
 				continue
 			}
-			switch r := rng.Intn(20); {
+			switch r := rng.Intn(22); {
+			case r >= 20:
+				s.copyStructOp()
 			case r < 3:
 				s.newStruct()
 			case r < 6:
@@ -793,8 +795,168 @@ func runBuilder(cfg *common.Config, rec *common.Recorder, idx uint64, rng *commo
 	if rec.WantSample() {
 		rec.Sample(map[string]interface{}{"arena": aname, "ops": s.ops, "marshalled_bytes": len(data)})
 	}
+	if rng.Chance(1, 3) && s.caps == 0 && len(s.root.Ptrs) > 0 && rec.NumViolations() == 0 {
+		phase2(cfg, rec, idx, s, data, rng, input)
+	}
 	// release capability table entries
 	s.msg.Reset(nil)
+}
+
+// copyStructOp: Struct.CopyFrom / List.SetStruct inside the message (deep
+// copy with the documented version rule: the destination keeps its section
+// sizes).
+func (s *script) copyStructOp() {
+	dst, ok := s.pickStruct()
+	if !ok {
+		return
+	}
+	src, ok := s.pickStruct()
+	if !ok || src.m == dst.m || reaches(src.m, dst.cont) || reaches(src.m, dst.m) {
+		return
+	}
+	expect := adaptTop(src.m, len(dst.m.Data)/8, len(dst.m.Ptrs))
+	if expect.HasCap() {
+		return
+	}
+	if err := dst.st.CopyFrom(src.st); err != nil {
+		s.err = fmt.Errorf("Struct.CopyFrom: %v", err)
+		return
+	}
+	for _, p := range dst.m.Ptrs {
+		s.overwrite(p)
+	}
+	dst.m.Data = expect.Data
+	dst.m.Ptrs = expect.Ptrs
+	s.logf("%s.CopyFrom(%s)", dst.name, src.name)
+}
+
+// phase2: keep building on the *decoded* copy of the message (an arena that
+// already holds data): new objects are allocated and linked into the root's
+// pointer slots, then the message is marshalled again and judged like the
+// first time.
+func phase2(cfg *common.Config, rec *common.Recorder, idx uint64, s *script, data []byte, rng *common.RNG, input func() interface{}) {
+	model := s.root.Clone()
+	var ops []string
+	var data2 []byte
+	var stepErr error
+	via := "Unmarshal"
+	p := common.Guard(func() {
+		buf := append([]byte(nil), data...)
+		var m2 *capnp.Message
+		var err error
+		if rng.Bool() {
+			m2, err = capnp.Unmarshal(buf)
+		} else {
+			via = "Decoder"
+			m2, err = capnp.NewDecoder(bytes.NewReader(buf)).Decode()
+		}
+		if err != nil {
+			stepErr = fmt.Errorf("%s: %v", via, err)
+			return
+		}
+		m2.TraverseLimit = 1 << 40
+		rp, err := m2.Root()
+		if err != nil {
+			stepErr = fmt.Errorf("Root: %v", err)
+			return
+		}
+		root := rp.Struct()
+		for k := rng.Range(1, 3); k > 0; k-- {
+			i := rng.Intn(len(model.Ptrs))
+			switch rng.Intn(3) {
+			case 0:
+				txt := string(rng.Bytes(rng.PickInt(1, 7, 8, 40)))
+				if err := root.SetNewText(uint16(i), txt); err != nil {
+					stepErr = fmt.Errorf("SetNewText on decoded message: %v", err)
+					return
+				}
+				model.Ptrs[i] = ref.NewText(txt)
+				ops = append(ops, fmt.Sprintf("root.p%d=text(%d)", i, len(txt)))
+			case 1:
+				st, err := capnp.NewStruct(root.Segment(), capnp.ObjectSize{DataSize: 16, PointerCount: 1})
+				if err != nil {
+					stepErr = fmt.Errorf("NewStruct on decoded message: %v", err)
+					return
+				}
+				v := rng.Uint64()
+				st.SetUint64(8, v)
+				if err := root.SetPtr(uint16(i), st.ToPtr()); err != nil {
+					stepErr = fmt.Errorf("SetPtr on decoded message: %v", err)
+					return
+				}
+				n := ref.NewStruct(2, 1)
+				binary.LittleEndian.PutUint64(n.Data[8:], v)
+				model.Ptrs[i] = n
+				ops = append(ops, fmt.Sprintf("root.p%d=NewStruct(16,1)", i))
+			default:
+				l, err := capnp.NewUInt32List(root.Segment(), 5)
+				if err != nil {
+					stepErr = fmt.Errorf("NewUInt32List on decoded message: %v", err)
+					return
+				}
+				l.Set(4, 0xfeedface)
+				if err := root.SetPtr(uint16(i), l.ToPtr()); err != nil {
+					stepErr = fmt.Errorf("SetPtr on decoded message: %v", err)
+					return
+				}
+				d := make([]byte, 20)
+				binary.LittleEndian.PutUint32(d[16:], 0xfeedface)
+				model.Ptrs[i] = ref.NewDataList(ref.ETByte4, 5, d)
+				ops = append(ops, fmt.Sprintf("root.p%d=UInt32List(5)", i))
+			}
+		}
+		if cfg.Prop == "C04" {
+			m2.ResetReadLimit(1 << 40)
+			g := walk.NewGuided()
+			g.Budget = 400000
+			if r2, err := m2.Root(); err != nil {
+				stepErr = fmt.Errorf("Root after building on decoded message: %v", err)
+				return
+			} else if mis := g.Ptr(r2, model, "root", 1); mis != nil {
+				stepErr = fmt.Errorf("readback: %s", mis.Error())
+				return
+			}
+		}
+		data2, err = m2.Marshal()
+		if err != nil {
+			stepErr = fmt.Errorf("Marshal after building on decoded message: %v", err)
+		}
+	})
+	rec.Count("phase2_decoded_then_built", 1)
+	in := func() interface{} {
+		m := input().(map[string]interface{})
+		m["phase2"] = ops
+		m["phase2_via"] = via
+		return m
+	}
+	if p != nil {
+		rec.Violate("panic/"+common.TopLibFrame(p.Stack)+"/build-on-decoded", "panic while building on a decoded message: "+p.Value, idx, p.Stack, in())
+		return
+	}
+	if stepErr != nil {
+		rec.Violate("build-on-decoded/"+firstWord(stepErr.Error()), "building on a decoded message failed: "+stepErr.Error(), idx, "", in())
+		return
+	}
+	segs, used, err := ref.ParseStream(data2)
+	if err != nil || used != len(data2) {
+		rec.Violate("build-on-decoded/framing", "output of a decoded-then-extended message does not parse", idx, "", in())
+		return
+	}
+	dec := ref.NewDecoder(segs, true)
+	got, derr := dec.Root()
+	if derr != nil {
+		rec.Violate("build-on-decoded/strict-decode", "independent decoder rejects a decoded-then-extended message: "+derr.Error(), idx, "", in())
+		return
+	}
+	if ov := dec.Overlaps(); ov != "" {
+		rec.Violate("build-on-decoded/overlap", "objects overlap in a decoded-then-extended message: "+ov, idx, "", in())
+		return
+	}
+	if !ref.Identical(got, model) {
+		rec.Violate("build-on-decoded/tree-differs", "decoded-then-extended message decodes to a different tree: "+ref.Diff(got, model), idx, "", in())
+		return
+	}
+	rec.Count("phase2_ok", 1)
 }
 
 func firstWord(s string) string {
